@@ -200,6 +200,9 @@ def apply_plan(full, info, plan, conc):
         value = conc.ct.join(comp)
     elif kind == 'TooManyElements':
         pad(vals, len(eles))
+        if plan.get('gap'):
+            vals.append('')           # variant: the first surplus element is empty, the data sits in the one after it
+            alt = [len(eles) + 1, len(eles) + 2]
         vals.append('X')
         value = 'X'
         if notes_status(n, vals) != before:
@@ -484,6 +487,8 @@ def run(tier, replay=None):
             kinds_total[p['kind']] = kinds_total.get(p['kind'], 0) + 1
         # every broken-note plan also in the variant where the segment ENDS at the element the note hangs on
         tails = [dict(p, tail=True) for p in plans if p['kind'] == 'SyntaxBroken']
+        # every fifth too-many-elements plan also with an empty element between the defined ones and the surplus data
+        tails += [dict(p, gap=True) for k, p in enumerate(p_ for p_ in plans if p_['kind'] == 'TooManyElements') if k % 5 == 0]
         if q:
             # stratified by kind so that rare kinds are always exercised
             bykind = {}
